@@ -13,7 +13,8 @@ import asyncio
 import importlib
 
 from . import dsl
-from .harness import (World, _state, _plain_factory, _eager_factory, _aio, execute)
+from .harness import (World, _state, _plain_factory, _eager_factory, _aio, execute, Hang,
+                      _arm_watchdog, _disarm_watchdog)
 from .vloop import Action
 
 import anyio
@@ -146,6 +147,19 @@ def run_real(program, loopkind, salt=1):
                     world.ev("envrun", a.name)
                     a.fn()
                 loop.call_soon(run)
+        if result["stuck"]:
+            # a program that can no longer make progress (or keeps the loop spinning) is torn
+            # down by force: cancel everything natively, a bounded number of times
+            for _ in range(50):
+                for t in asyncio.all_tasks():
+                    if t is not me and not t.done():
+                        t.cancel()
+                for _ in range(20):
+                    await asyncio.sleep(0)
+                if prog_task.done():
+                    break
+            if not prog_task.done():
+                return
         try:
             await prog_task
         except BaseException as e:  # noqa: BLE001
@@ -154,10 +168,19 @@ def run_real(program, loopkind, salt=1):
     async def _tagged(coro):
         return await coro
 
+    _arm_watchdog()
     try:
         anyio.run(main, backend_options={"loop_factory": factory})
+    except Hang:
+        result["stuck"] = True
+        result["exc"] = None
     except BaseException as e:  # noqa: BLE001
         result["exc"] = e
+    finally:
+        _disarm_watchdog()
+    from .vloop import LoopAbort
+    if isinstance(result["exc"], LoopAbort):
+        result["stuck"] = True  # the virtual loop gave up (deadlock / handle budget)
     ts = getattr(_aio, "_task_states", None)
     for t in _state["tasks"]:
         asyncio._unregister_task(t)
